@@ -144,7 +144,7 @@ fn facets(ev: &Value, ex: &Value) -> Vec<(String, Value, Value, bool)> {
         eq("readonly_fp", ev["pre_fp"].clone(), ev["fp"].clone());
     }
 
-    if op == "clone" {
+    if op == "clone" || op == "clone_from" {
         let dt = &ex["dt"];
         let dst = &ev["dst"];
         let e_rows: Vec<Value> = dt["ord"].as_array().cloned().unwrap_or_default();
@@ -154,7 +154,10 @@ fn facets(ev: &Value, ex: &Value) -> Vec<(String, Value, Value, bool)> {
                 .unwrap_or_default()));
         eq("clone_cur", dt["cur"].clone(), dst["cur"].clone());
         eq("clone_max", dt["max"].clone(), dst["max"].clone());
-        eq("clone_cap", dt["cap"].clone(), dst["cap"].clone());
+        if op == "clone" {
+            // how much capacity a clone_from leaves the target with is stated by no property
+            eq("clone_cap", dt["cap"].clone(), dst["cap"].clone());
+        }
         let mut rev: Vec<Value> = e_rows.iter().map(|r| r[0].clone()).collect();
         rev.reverse();
         eq("clone_mirror", json!(rev), dst["rev"].clone());
@@ -239,7 +242,8 @@ fn run_segments(args: &[String], cfg: &Config) {
 
             if !broken {
                 let ev = session.exec(&o);
-                did_fire = ev["fired"] == true;
+                did_fire = ev["fired"] == true
+                    || (kind == "alloc" && ev["a"]["fl"] == true);
                 broken = corrupt(&ev);
                 writeln!(events, "{}", ev).unwrap();
                 executed += 1;
@@ -317,6 +321,10 @@ fn main() {
     let events_limit: u64 = arg(&args, "--events-limit").and_then(|s| s.parse().ok()).unwrap_or(u64::MAX);
 
     let mut session = Session::new(cfg.clone());
+    let roguard_path = arg(&args, "--roguard");
+    let new_guard = |windows: u64| roguard_path.as_ref().map(|p| RoGuard {
+        file: std::fs::OpenOptions::new().create(true).write(true).open(p).unwrap(), windows });
+    session.roguard = new_guard(0);
     let reader = BufReader::new(std::fs::File::open(&script).unwrap());
     let mut line_no = 0u64;
     let mut executed = 0u64;
@@ -377,7 +385,9 @@ fn main() {
             }
 
             reg_reset();
+            let windows = session.roguard.as_ref().map(|g| g.windows).unwrap_or(0);
             session = Session::new(cfg.clone());
+            session.roguard = new_guard(windows);
             in_sync = true;
             continue;
         }
@@ -446,7 +456,8 @@ fn main() {
     let fin = session.finish();
     let summary = json!({"lines": line_no, "executed": executed, "compared": compared,
         "comparisons": comparisons, "mismatches": n_mismatch, "per_op": per_op,
-        "resets": ends, "end_of_life_failures": leaks, "skipped_out_of_sync": skipped, "final": fin,
+        "resets": ends, "end_of_life_failures": leaks, "skipped_out_of_sync": skipped,
+        "roguard_windows": session.roguard.as_ref().map(|g| g.windows).unwrap_or(0), "final": fin,
         "hasher": cfg.hasher, "keyform": format!("{:?}", cfg.keyform)});
     println!("{}", summary);
 
